@@ -16,3 +16,5 @@ fi
 # Lean 4 + Mathlib lemmas of C02 (lean/Pigeonhole.lean): checked once here (offline, ~2 min cold) and cached by file hash under
 # .cache/lean, so that the quick tier can report the result; the thorough tier re-runs Lean itself. Never fatal for the setup.
 timeout 1200 .venv/bin/python -c "import os, sys; os.environ.setdefault('LOGLEVEL', 'CRITICAL'); sys.path.insert(0, '.'); import props.C02 as p; r = p.deductive_extra('thorough', 0); print('lean lemmas:', [x.get('status') for x in r])" 2>/dev/null || echo "lean lemmas: not checked (lean unavailable); the thorough tier will try again"
+# Lean lemmas of C12 (lean/History.lean, core Lean) and C01/C16 (lean/Definitional.lean, Mathlib): same caching
+timeout 600 .venv/bin/python -c "import os, sys; os.environ.setdefault('LOGLEVEL','CRITICAL'); sys.path.insert(0,'.'); import props.C12 as p, props.C01 as q; print('lean History:', [x.get('status') for x in p.deductive_extra('thorough',0)]); print('lean Definitional:', [x.get('status') for x in q.deductive_extra('thorough',0)])" 2>/dev/null || echo "lean History/Definitional: not checked (lean unavailable)"
